@@ -16,6 +16,7 @@ from vf.models import geom_ref as G
 ID = "C15"
 FLAVOUR = "plain"
 LEVEL = "exploration"
+THOROUGH_MULT = 2.5       # deepens the sampled strata of the thorough tier (measured: about ten minutes on 16 cores)
 RULE = (
     "seeded generator.  measure: 4 operands with shapes drawn from (3,), (n,3), (m,n,3), (1,3), (1,n,3), (m,1,3) "
     "(m 1-4, n 1-8), scale 10^-2..10^2 around a centre of magnitude up to 10^4, given as float32/float64 ndarray or "
